@@ -4,6 +4,7 @@ use serde_json::Value;
 use std::collections::BTreeSet;
 
 pub mod c19;
+pub mod c20;
 pub mod c21;
 pub mod c22;
 pub mod c23;
@@ -59,6 +60,7 @@ pub fn registry() -> Vec<PropInfo> {
     let mut v = vec![];
     v.extend(hist::props());
     v.extend(c19::props());
+    v.extend(c20::props());
     v.extend(c21::props());
     v.extend(c22::props());
     v.extend(c23::props());
